@@ -2,14 +2,18 @@
 Line-protocol driver: dispatch on the first word of each line.
 -/
 import Univers.Driver.Util
+import Univers.Driver.Advisory
 import Univers.Driver.Alpm
 import Univers.Driver.Conan
 import Univers.Driver.Deb
 import Univers.Driver.Dispatch
+import Univers.Driver.Domain
 import Univers.Driver.Gem
+import Univers.Driver.GemPypi
 import Univers.Driver.Generic
 import Univers.Driver.Gentoo
 import Univers.Driver.Maven
+import Univers.Driver.Npm
 import Univers.Driver.Nuget
 import Univers.Driver.Openssl
 import Univers.Driver.Pypi
@@ -20,7 +24,7 @@ import Univers.Driver.Vers
 
 namespace Univers.Driver
 
-def handlers : List (List String → Option String) := [alpmCmd, conanCmd, debCmd, dispatchCmd, gemCmd, genericCmd, gentooCmd, mavenCmd, nugetCmd, opensslCmd, pypiCmd, rpmCmd, semverCmd, textVersCmd, versCmd]
+def handlers : List (List String → Option String) := [advisoryCmd, alpmCmd, conanCmd, debCmd, dispatchCmd, domainCmd, gemCmd, gemPypiCmd, genericCmd, gentooCmd, mavenCmd, npmCmd, nugetCmd, opensslCmd, pypiCmd, rpmCmd, semverCmd, textVersCmd, versCmd]
 
 def answer (line : String) : String :=
   let ws := (line.splitOn " ").filter (· ≠ "")
